@@ -1,5 +1,6 @@
 import Infretis.Lemmas.StoreCodec
 import Infretis.Lemmas.StoreProt
+import Infretis.Lemmas.StoreLag
 /-!
 # C14 — stored paths read back unchanged; live paths never lose files
 
@@ -304,6 +305,55 @@ example : Bounded demoInit demoOps ∧ (run demoInit demoOps).2 = none ∧ (run 
 
 example : (1 : Nat) ≤ 3 ∧ ∀ e ∈ [((0 : Nat), ["i0.xyz"]), (1, ["i1a.xyz", "i1b.xyz"])], e.1 + 1 < 3 := by decide
 
+/-! ### the lag -/
+
+/-- **Lag, part 1.** A live, non-initial path replaced under `delete_old` is queued with exactly
+    `n − 1` (= number of ensembles) qualifying replacements to go, whatever the queue held. -/
+theorem deletion_lag_queued (s : St) (hg : Good s) (hlen : s.pnOlds.length + 1 ≤ s.n) (pnOld : Nat)
+    (files kept : List String) (hl : pnOld ∈ s.live) (hq : qualifies s pnOld = true)
+    (hok : (replace s pnOld files kept).2 = none) :
+    pnOld ∈ keys (replace s pnOld files kept).1.pnOlds ∧ remn (replace s pnOld files kept).1 pnOld = s.n - 1 :=
+  lag_push s hg hlen pnOld files kept hl hq hok
+
+/-- **Lag, part 2.** For a queued path `q` and one later accepted replacement: a non-qualifying
+    one (delete_old off or an initial path replaced) leaves the queue and `q`'s files alone; a
+    qualifying one removes `q`'s queue entry and all files of its `adress` exactly when its
+    counter `remn` is 1, and otherwise decrements the counter and leaves every file of `q` in place.
+    Together with part 1: a replaced path's files are removed at, and not before, the
+    (n − 1)-th later qualifying replacement. (`finish` does not touch queue or files.) -/
+theorem deletion_lag (s : St) (hg : Good s) (hlen : s.pnOlds.length + 1 ≤ s.n) (hnd : (keys s.pnOlds).Nodup)
+    (q : Nat) (hqk : q ∈ keys s.pnOlds) (pnOld : Nat) (files kept : List String) (hl : pnOld ∈ s.live)
+    (hok : (replace s pnOld files kept).2 = none) :
+    (qualifies s pnOld = false →
+      (replace s pnOld files kept).1.pnOlds = s.pnOlds ∧
+      ∀ g ∈ s.disk, g.pn = q → g ∈ (replace s pnOld files kept).1.disk) ∧
+    (qualifies s pnOld = true →
+      (remn s q = 1 → q ∉ keys (replace s pnOld files kept).1.pnOlds ∧
+        ∀ adr, (q, adr) ∈ s.pnOlds → ∀ a ∈ adr, DFile.acc q a ∉ (replace s pnOld files kept).1.disk) ∧
+      (remn s q ≠ 1 → q ∈ keys (replace s pnOld files kept).1.pnOlds ∧
+        remn (replace s pnOld files kept).1 q + 1 = remn s q ∧
+        ∀ g ∈ s.disk, g.pn = q → g ∈ (replace s pnOld files kept).1.disk)) :=
+  lag_step s hg hlen hnd q hqk pnOld files kept hl hok
+
+/-- the side conditions of the two lag theorems are invariants of every history -/
+theorem deletion_lag_invariants (s : St) (hg : Good s) (hp : Prot s) (hnd : (keys s.pnOlds).Nodup)
+    (hb : s.cnt + 1 < s.n) (pnOld : Nat) (files kept : List String) :
+    (replace s pnOld files kept).1.pnOlds.length + 1 ≤ (replace s pnOld files kept).1.n ∧
+    (keys (replace s pnOld files kept).1.pnOlds).Nodup ∧
+    (finish s).1.pnOlds = s.pnOlds ∧ (finish s).1.disk = s.disk :=
+  ⟨(prot_replace s hg hp hb pnOld files kept).olds_len, nodup_replace s hnd pnOld files kept,
+   by unfold finish; dsimp only; split <;> rfl, (finish_disk s).1⟩
+
+/-- the lag on a concrete history (n = 3, lag 2): path 2 is queued by the third op, still has its
+    file after one more qualifying replacement, and loses it at the second -/
+example :
+    let s1 := (run demoInit (demoOps.take 3)).1
+    let s2 := (run demoInit (demoOps.take 7)).1
+    let s3 := (run demoInit (demoOps.take 9)).1
+    remn s1 2 = 2 ∧ 2 ∉ s1.live ∧ DFile.acc 2 "a.xyz" ∈ s2.disk ∧ remn s2 2 = 1 ∧
+    DFile.acc 2 "a.xyz" ∉ s3.disk ∧ 2 ∉ keys s3.pnOlds := by
+  decide
+
 /-! ### the delete block can raise -/
 
 /-- **Defect.** With `delete_old_all` and `keep_traj_fnames` the side files moved into
@@ -324,5 +374,52 @@ theorem delete_block_never_raises_counterexample :
   decide
 
 example : (run cexInit cexOps).2 = some .notempty := by decide
+
+
+/-- **What does hold.** The body of the delete block for the queue head `pd` does not raise when
+    its recorded `adress` files are there and either `delete_old_all` is off (no `rmdir` at all) or
+    the path's directory holds nothing but the three text files and the `adress` files — i.e. no
+    side file was kept by `keep_traj_fnames` — and both directories exist.  The guard is exactly
+    the negation of the defect above. -/
+theorem delete_block_never_raises_partial (da : Bool) (pd : Nat) (adr : List String)
+    (rest : List (Nat × List String)) (disk : List DFile) (dirs : List DDir)
+    (hnd : adr.Nodup) (hex : ∀ a ∈ adr, DFile.acc pd a ∈ disk)
+    (hguard : da = false ∨
+      (DDir.accepted pd ∈ dirs ∧ DDir.path pd ∈ dirs ∧
+       ∀ g ∈ disk, g.pn = pd → (g = .txt pd 0 ∨ g = .txt pd 1 ∨ g = .txt pd 2 ∨ ∃ a ∈ adr, g = .acc pd a))) :
+    (delHeadCore da ((pd, adr) :: rest) disk dirs).2.2.2 = none ∧
+    (delHeadCore da ((pd, adr) :: rest) disk dirs).1 = rest := by
+  have hrm : (removeAll (adr.map (DFile.acc pd)) disk).2 = none := by
+    apply removeAll_ok
+    · refine nodup_map_on _ _ ?_ hnd
+      intro a _ b _ h
+      simpa using h
+    · intro f hf
+      obtain ⟨a, ha, rfl⟩ := List.mem_map.mp hf
+      exact hex a ha
+  unfold delHeadCore
+  simp only [hrm]
+  rcases hguard with h | ⟨h1, h2, h3⟩
+  · subst h; simp
+  · cases da with
+    | false => simp
+    | true =>
+      simp only [if_true]
+      have : (rmdirs pd (removeTxts pd (removeAll (adr.map (DFile.acc pd)) disk).1) dirs).2 = none := by
+        apply rmdirs_ok pd _ dirs h1 h2
+        intro g hg hpn
+        rw [mem_removeTxts] at hg
+        obtain ⟨hg1, n0, n1, n2⟩ := hg
+        rcases h3 g (removeAll_sub _ _ g hg1) hpn with h | h | h | ⟨a, ha, h⟩
+        · exact n0 h
+        · exact n1 h
+        · exact n2 h
+        · subst h
+          exact removeAll_gone _ _ hrm _ (List.mem_map_of_mem ha) hg1
+      simp only [this]
+      exact ⟨trivial, trivial⟩
+
+example : (delHeadCore true [(2, ["a.xyz"])] [.txt 2 0, .txt 2 1, .txt 2 2, .acc 2 "a.xyz", .txt 3 1]
+    [.path 2, .accepted 2, .path 3]).2.2.2 = none := by decide
 
 end Infretis.C14
